@@ -1,6 +1,7 @@
 //! Shared pieces of the correspondence harness: PRNG, hex, output files.
 pub mod prog;
 pub mod gram;
+pub mod gencode;
 use std::fmt::Write as _;
 use std::fs;
 use std::io::Write as _;
